@@ -33,6 +33,9 @@ EXPRS = {
     "child.value": [G.P("child.value")],
     "kids.items.value": [G.P("kids.items.value")],
     "kids:items:value": [G.P("kids:items:value")],
+    # a prefix of another expression (their graphs overlap on the root's
+    # link trait)
+    "child": [G.P("child")],
 }
 # expressions that fail when some object met by the walk lacks `extra`
 FAILING = {
@@ -366,7 +369,8 @@ def reentrant_cells(ctx):
     from traits.observation.exceptions import NotifierNotFound
     acts = ("remove-self", "remove-earlier", "remove-later", "add-third",
             "remove-self-and-readd")
-    for ename, act, n_self in itertools.product(EXPRS, acts, (1, 2)):
+    for ename, act, n_self in itertools.product(
+            [e for e in EXPRS if e != "child"], acts, (1, 2)):
         case = {"reentrant": act, "expr": ename, "n": n_self}
         ctx.case(case)
         ctx.ev()
